@@ -11,6 +11,9 @@ open TLX.Quic TLX.Cipher TLX.Quic.Session TLX.Lemmas.QuicSession
 open TLX.Props.C02Session TLX.Spec.QuicConnection TLX.Props.C02Pipeline TLX.Quic.CryptoStream TLX.Lemmas.CryptoStream
 open TLX.Spec.TlsHandshakeFraming TLX.Spec.TlsHello TLX.Lemmas.TlsHello
 open TLX.Spec.QuicSender TLX.Spec.QuicFrames TLX.Spec.QuicPackets
+open TLX.MainLoop TLX.Spec.Demux TLX.Lemmas.MainLoop TLX.Dissect TLX.OutBytes
+open TLX.Props.C01File TLX.Spec.FrameBuild TLX.Spec.TlsCapture TLX.Spec.QuicCapture TLX.Props.C12Dissect
+open TLX.Export TLX.Props.C01File2 TLX.Props.C02File
 
 /-! ### the suite: from the IANA denotation to the tool's table -/
 
@@ -805,5 +808,229 @@ theorem dgs_of_rfc (h : ConfHs) (hok : h.Ok) (L : SealLaws Pc) (dcid0 : Bytes) (
     exact i2
 
 end Sender
+
+/-! ### the capture, the key-log file and the senders in RFC / file terms -/
+section CaptureRfc
+variable (maskFn : Quic.Dissect.MaskFn) (H : Crypto.Prims) (Pc : Cipher.Prims)
+
+/-- the handshake / 1-RTT datagrams of a described capture, in capture order -/
+def hsOf : List QEv → List DgH
+  | [] => []
+  | .hs _ _ _ d :: rest => d :: hsOf rest
+  | _ :: rest => hsOf rest
+
+def onesOf : List QEv → List Dg1
+  | [] => []
+  | .one _ _ _ d :: rest => d :: onesOf rest
+  | _ :: rest => onesOf rest
+
+theorem hsItems_dgs (fl : Flow) (kl : List Keylog.Key) (n : Nat) (evs : List QEv) :
+    (hsItems fl kl n evs).map (·.2.2) = hsOf evs := by
+  induction evs generalizing n with
+  | nil => rfl
+  | cons ev rest ih => cases ev <;> simp [hsItems, hsOf, ih]
+
+theorem oneItems_dgs (fl : Flow) (n : Nat) (evs : List QEv) : (oneItems fl n evs).map (·.2) = onesOf evs := by
+  induction evs generalizing n with
+  | nil => rfl
+  | cons ev rest ih => cases ev <;> simp [oneItems, onesOf, ih]
+
+theorem hsItems_pre (fl : Flow) (kl : List Keylog.Key) (n : Nat) (pre rest : List QEv) (h : ∀ ev ∈ pre, noHs ev = true) :
+    hsItems fl kl n (pre ++ rest) = hsItems fl kl (n + pre.length) rest := by
+  induction pre generalizing n with
+  | nil => rfl
+  | cons ev pre ih =>
+    have h1 := h ev (List.mem_cons_self ..)
+    have := ih (n + 1) (fun e he => h e (List.mem_cons_of_mem _ he))
+    cases ev with
+    | hs _ _ _ _ => cases h1
+    | one _ _ _ _ => simp only [List.cons_append, hsItems, this, List.length_cons]; congr 1; omega
+    | foreign _ => simp only [List.cons_append, hsItems, this, List.length_cons]; congr 1; omega
+
+/-- **C02's hypotheses in RFC / file terms.** Nothing here mentions the tool's state.
+    * the suite: the ServerHello's code point is a TLS 1.3 one (RFC 8446 B.4) and `(sp, sel)` is what its IANA name denotes
+      (`Spec.RfcQuic.quicSuite`: `Spec.Iana` + `Spec.denote`, RFC 9001 §5.3);
+    * the key log: the TEXT `fileText ls` of a file of well-formed lines (`FLine.WF`: what the reader's regular expression
+      accepts, or inert text; lines of other connections included) has the connection's four NSS lines and no different secret
+      for the same label and client random; `early` is the CLIENT_EARLY_TRAFFIC_SECRET line's secret if there is one;
+    * the capture: `pre` (no handshake datagram of the connection), the client's first datagram `d0`, the other events of the
+      handshake phase, then the 1-RTT phase — each datagram with the wire bytes of RFC 9000 / 9001 under the keys the RFC
+      schedule derives from the secrets in the file;
+    * the senders: `HsDgsR` / `Send1` relative to THEIR OWN bookkeeping `RTrk` (packet numbers sent, CIDs in use, ServerHello
+      sent), header protection by the suite's algorithm `hpChacha sel`. -/
+structure QuicCaptureRfc (L : SealLaws Pc) (args : Args) (ls : List (FLine × Bool)) (pm : List (Int × Int))
+    (ports : List Int) (fl : Flow) (hs : ConfHs) (ch sh ca sa : Bytes) (early : Option Bytes) (sp : SuiteSpec)
+    (sel : SuiteSel) (pre : List QEv) (t0 : Container.Time) (fr0 : Spec.FrameBuild.Frame) (u0 : Udp) (d0 : DgH)
+    (restH evsO : List QEv) : Prop where
+  lawful : H.Lawful
+  sha256 : H.sha256.outLen = 32
+  times : ∀ e ∈ ((pre ++ .hs t0 fr0 u0 d0 :: restH) ++ evsO).map QEv.cap, Ingest.isMinusOne e.t = false
+  noc : args.checksumTest = false
+  nometa : args.metadata = false
+  pmOk : Options.getPortMap Options.Src.bare args.mArg = .ok pm
+  portsOk : Options.serverPorts Options.Src.builtin Options.Src.pDefault args.pArg = .ok ports
+  endpoints : clientEp fl ≠ serverEp fl
+  clientPort : ports.contains (fl.clientPort : Int) = false
+  hsOk : hs.Ok
+  /-- the suite, by the registry -/
+  tls13 : hs.sh.cipherSuite ∈ tls13Codes
+  suite : quicSuite (Bytes.beNat hs.sh.cipherSuite) = some (sp, sel)
+  outLen : (hashOf H sel.hash).outLen < 65536
+  saLen : sa.length = (hashOf H sel.hash).outLen
+  caLen : ca.length = (hashOf H sel.hash).outLen
+  /-- the key-log file, as text -/
+  linesWf : ∀ x ∈ ls, x.1.WF
+  lineCH : HasLine ls labelCHTS (Pipeline.natsOfBytes hs.ch.random) (Pipeline.natsOfBytes ch)
+  lineSH : HasLine ls labelSHTS (Pipeline.natsOfBytes hs.ch.random) (Pipeline.natsOfBytes sh)
+  lineCA : HasLine ls labelCTS0 (Pipeline.natsOfBytes hs.ch.random) (Pipeline.natsOfBytes ca)
+  lineSA : HasLine ls labelSTS0 (Pipeline.natsOfBytes hs.ch.random) (Pipeline.natsOfBytes sa)
+  onlyCH : OnlySecret ls labelCHTS (Pipeline.natsOfBytes hs.ch.random) (Pipeline.natsOfBytes ch)
+  onlySH : OnlySecret ls labelSHTS (Pipeline.natsOfBytes hs.ch.random) (Pipeline.natsOfBytes sh)
+  onlyCA : OnlySecret ls labelCTS0 (Pipeline.natsOfBytes hs.ch.random) (Pipeline.natsOfBytes ca)
+  onlySA : OnlySecret ls labelSTS0 (Pipeline.natsOfBytes hs.ch.random) (Pipeline.natsOfBytes sa)
+  earlyLine : EarlyLine ls (Pipeline.natsOfBytes hs.ch.random) early
+  /-- the capture -/
+  preNoHs : ∀ ev ∈ pre, noHs ev = true
+  fromClient : d0.srv = false
+  described : QDescribed fl (dgWire H Pc L (dgDcid d0) sel sh ch)
+    (wireOf H Pc L sel .v1 (rfcGen (hashOf H sel.hash) sel.keyLen sa ca 0)) (optsOf args ports pm)
+    ((pre ++ .hs t0 fr0 u0 d0 :: restH) ++ evsO)
+  phaseH : ∀ ev ∈ pre ++ .hs t0 fr0 u0 d0 :: restH, noOne ev = true
+  phaseO : ∀ ev ∈ evsO, noHs ev = true
+  /-- the senders -/
+  hsDgs : HsDgsR maskFn H Pc L (dgDcid d0) sel sh ch rtrk0 (d0 :: hsOf restH)
+  hsIns : allIns (d0 :: hsOf restH) = hs.ins
+  send1 : Send1 maskFn H Pc L sel .v1 (rfcGen (hashOf H sel.hash) sel.keyLen sa ca 0)
+      (quicHp (hashOf H sel.hash) ca sel.keyLen) (quicHp (hashOf H sel.hash) sa sel.keyLen) (hpChacha sel) 0 0
+      (rtrk0.runDgs (d0 :: hsOf restH)).tc.app (rtrk0.runDgs (d0 :: hsOf restH)).ts.app
+      (rtrk0.runDgs (d0 :: hsOf restH)).cc (rtrk0.runDgs (d0 :: hsOf restH)).sc (onesOf evsO)
+  routes : Routes1 (wireOf H Pc L sel .v1 (rfcGen (hashOf H sel.hash) sel.keyLen sa ca 0))
+      (rtrk0.runDgs (d0 :: hsOf restH)).cc (rtrk0.runDgs (d0 :: hsOf restH)).sc (onesOf evsO)
+  distinct : ((onesOf evsO).map fun d => (d.x.ts, d.x.srv)).Pairwise (· ≠ ·)
+
+variable {maskFn H Pc}
+
+/-- every tool-side hypothesis of `C02File.QuicCapture` DERIVED: the tool's suite table from the IANA denotation, what
+    `dev_quic_keys` reads from the file text, the parser state (`parser_facts`), `keyed`, the header-protection switch, the
+    learnt connection IDs and packet numbers from the senders' own -/
+theorem capture_of_rfc {L : SealLaws Pc} {args : Args} {ls : List (FLine × Bool)} {pm : List (Int × Int)}
+    {ports : List Int} {fl : Flow} {hs : ConfHs} {ch sh ca sa : Bytes} {early : Option Bytes} {sp : SuiteSpec}
+    {sel : SuiteSel} {pre : List QEv} {t0 : Container.Time} {fr0 : Spec.FrameBuild.Frame} {u0 : Udp} {d0 : DgH}
+    {restH evsO : List QEv}
+    (h : QuicCaptureRfc maskFn H Pc L args ls pm ports fl hs ch sh ca sa early sp sel pre t0 fr0 u0 d0 restH evsO) :
+    QuicCapture maskFn H Pc L args (some (fileText ls)) pm ports fl hs ch sh ca sa early sel
+      (pre ++ .hs t0 fr0 u0 d0 :: restH) evsO ((fileKeysOf (some (fileText ls))).getD [])
+      (dgPkt fl false u0.payload pre.length) d0
+      (hsItems fl ((fileKeysOf (some (fileText ls))).getD []) (pre.length + 1) restH) := by
+  obtain ⟨hsel, _, _⟩ := selectSuite_tls13 _ h.tls13 sp sel h.suite
+  have hdgs : (hsItems fl ((fileKeysOf (some (fileText ls))).getD []) (pre.length + 1) restH).map (·.2.2) = hsOf restH :=
+    hsItems_dgs ..
+  obtain ⟨k1, k2⟩ := dgs_of_rfc hs h.hsOk L (dgDcid d0) sel sh ch hsel (d0 :: hsOf restH) [] []
+    (by rw [h.hsIns]; simp) trk0 rtrk0 sync0 h.hsDgs
+  have hkeyed : (trk0.runDgs (d0 :: hsOf restH)).keyed = true := by
+    rw [k2.keyed, k2.sent, List.nil_append, h.hsIns, ins_split]
+    simp [shIn, inOf]
+  have hch : chachaOf (trk0.runDgs (d0 :: hsOf restH)).core = hpChacha sel := by
+    rw [k2.core]
+    refine chacha_sync hs h.hsOk sel hsel _ (by rw [List.nil_append, h.hsIns]; exact List.prefix_refl _) ?_
+    rw [List.nil_append, h.hsIns, ins_split]; simp [shIn, inOf]
+  exact
+    { lawful := h.lawful, sha256 := h.sha256, times := h.times, noc := h.noc, nometa := h.nometa, pmOk := h.pmOk,
+      portsOk := h.portsOk, endpoints := h.endpoints, clientPort := h.clientPort, hsOk := h.hsOk, suite := hsel,
+      outLen := h.outLen, saLen := h.saLen, caLen := h.caLen,
+      keylog := keylogHas_text ls h.linesWf _ _ _ _ _ early h.lineCH h.lineSH h.lineCA h.lineSA h.onlyCH h.onlySH h.onlyCA
+        h.onlySA h.earlyLine,
+      first := by
+        rw [hsItems_pre fl _ 0 pre _ h.preNoHs, Nat.zero_add]
+        simp only [hsItems, h.fromClient]
+      fromClient := h.fromClient, described := h.described, phaseH := h.phaseH, phaseO := h.phaseO,
+      hsDgs := by rw [hdgs]; exact k1,
+      hsIns := by rw [hdgs]; exact h.hsIns,
+      keyed := by rw [hdgs]; exact hkeyed,
+      send1 := by
+        rw [hdgs, oneItems_dgs, hch, k2.tc, k2.ts, k2.cc, k2.sc]; exact h.send1
+      routes := by rw [hdgs, oneItems_dgs, k2.cc, k2.sc]; exact h.routes
+      distinct := by rw [oneItems_dgs]; exact h.distinct }
+
+/-- **C02 FROM FILE TO FILE, hypotheses in RFC / file terms only.** For the bytes of a capture file in any container variant
+    (independent encoder) and the TEXT of a key-log file: a QUIC v1 connection with a conformant TLS 1.3 handshake, any of
+    the four suites by their IANA denotation, whose secrets' NSS lines stand in the file, sent as RFC 9000 / 9001 say relative
+    to the senders' own bookkeeping — the tool writes a file that reads back exactly the connection's block (or aborts in
+    the write loop). No hypothesis mentions the tool's state (`QuicCaptureRfc`). -/
+theorem quic_capture_exact_rfc {L : SealLaws Pc} {args : Args} {ls : List (FLine × Bool)} {pm : List (Int × Int)}
+    {ports : List Int} {fl : Flow} {hs : ConfHs} {ch sh ca sa : Bytes} {early : Option Bytes} {sp : SuiteSpec}
+    {sel : SuiteSel} {pre : List QEv} {t0 : Container.Time} {fr0 : Spec.FrameBuild.Frame} {u0 : Udp} {d0 : DgH}
+    {restH evsO : List QEv}
+    (h : QuicCaptureRfc maskFn H Pc L args ls pm ports fl hs ch sh ca sa early sp sel pre t0 fr0 u0 d0 restH evsO)
+    (cv : Spec.Containers.Variant) (cevs : List Spec.Containers.Ev) (hcwf : cv.WF cevs)
+    (hitems : cevs.filterMap (Spec.Containers.scale cv) =
+      (((pre ++ .hs t0 fr0 u0 d0 :: restH) ++ evsO).map QEv.cap).map CapEv.item) :
+    (∃ e, exportFile maskFn H Pc args cv.isLegacy (some (fileText ls)) (Spec.Containers.encode cv cevs) = .abort (.write e)) ∨
+    ∃ f, exportFile maskFn H Pc args cv.isLegacy (some (fileText ls)) (Spec.Containers.encode cv cevs) = .file f ∧
+      ReadsBack f (blockOf (maskFn := maskFn) (H := H) (Pc := Pc) args pm ports fl (pre ++ .hs t0 fr0 u0 d0 :: restH) evsO
+        (dgPkt fl false u0.payload pre.length)) :=
+  quic_capture_exact_encoded (capture_of_rfc h) cv cevs hcwf hitems
+
+/-- … without the abort alternative, under the explicit ranges of `C02File.quic_capture_exact_ranges` -/
+theorem quic_capture_rfc_ranges {L : SealLaws Pc} {args : Args} {ls : List (FLine × Bool)} {pm : List (Int × Int)}
+    {ports : List Int} {fl : Flow} {hs : ConfHs} {ch sh ca sa : Bytes} {early : Option Bytes} {sp : SuiteSpec}
+    {sel : SuiteSel} {pre : List QEv} {t0 : Container.Time} {fr0 : Spec.FrameBuild.Frame} {u0 : Udp} {d0 : DgH}
+    {restH evsO : List QEv}
+    (h : QuicCaptureRfc maskFn H Pc L args ls pm ports fl hs ch sh ca sa early sp sel pre t0 fr0 u0 d0 restH evsO)
+    (cv : Spec.Containers.Variant) (cevs : List Spec.Containers.Ev) (hcwf : cv.WF cevs)
+    (hitems : cevs.filterMap (Spec.Containers.scale cv) =
+      (((pre ++ .hs t0 fr0 u0 d0 :: restH) ++ evsO).map QEv.cap).map CapEv.item)
+    (hforeign : ∀ e, QEv.foreign e ∈ (pre ++ .hs t0 fr0 u0 d0 :: restH) ++ evsO → ∀ tag, NotTls (pktOf tag e.d))
+    (hsp : TcpOut.exportedServerPort (Options.keepOriginalPorts args.mArg) (Pipeline.portmapFn pm) fl.serverPort < 65536)
+    (hlen : ∀ d ∈ onesOf evsO, (if fl.v6 then 0 else 20) + 8 + (streamData d.x.frames).flatten.length < 65536)
+    (hts : ∀ d ∈ onesOf evsO, d.x.ts < 2 ^ 64) :
+    ∃ f, exportFile maskFn H Pc args cv.isLegacy (some (fileText ls)) (Spec.Containers.encode cv cevs) = .file f ∧
+      ReadsBack f (blockOf (maskFn := maskFn) (H := H) (Pc := Pc) args pm ports fl (pre ++ .hs t0 fr0 u0 d0 :: restH) evsO
+        (dgPkt fl false u0.payload pre.length)) :=
+  quic_capture_exact_ranges (capture_of_rfc h) cv.isLegacy _ (by rw [Props.C12.reader_roundtrip cv cevs hcwf, hitems])
+    hforeign hsp (by rw [oneItems_dgs]; exact hlen) (by rw [oneItems_dgs]; exact hts)
+
+/-- what C02 demands of the output, in the senders' terms alone: one UDP frame per 1-RTT datagram that carried a STREAM
+    frame, in capture order, payload = that datagram's STREAM data, its capture microsecond, between the client's endpoint
+    and the server's address with the exported port, MAC addresses and IP version of the client's first datagram -/
+def blockR (args : Args) (pm : List (Int × Int)) (fl : Flow) (fr0 : Spec.FrameBuild.Frame) (ds : List Dg1) :
+    List Pipeline.OutPkt :=
+  (ds.filter fun d => hasStream d.x.frames).map fun d =>
+    let s : MainLoop.Endpoint := ⟨(serverEp fl).ip,
+      TcpOut.exportedServerPort (Options.keepOriginalPorts args.mArg) (Pipeline.portmapFn pm) (serverEp fl).port⟩
+    if d.x.srv then ⟨d.x.ts, fr0.dstMac, fr0.srcMac, s, clientEp fl, fl.v6, 0, 0, 0, (streamData d.x.frames).flatten, true⟩
+    else ⟨d.x.ts, fr0.srcMac, fr0.dstMac, clientEp fl, s, fl.v6, 0, 0, 0, (streamData d.x.frames).flatten, true⟩
+
+theorem blockOf_rfc {L : SealLaws Pc} {args : Args} {ls : List (FLine × Bool)} {pm : List (Int × Int)}
+    {ports : List Int} {fl : Flow} {hs : ConfHs} {ch sh ca sa : Bytes} {early : Option Bytes} {sp : SuiteSpec}
+    {sel : SuiteSel} {pre : List QEv} {t0 : Container.Time} {fr0 : Spec.FrameBuild.Frame} {u0 : Udp} {d0 : DgH}
+    {restH evsO : List QEv}
+    (h : QuicCaptureRfc maskFn H Pc L args ls pm ports fl hs ch sh ca sa early sp sel pre t0 fr0 u0 d0 restH evsO) :
+    blockOf (maskFn := maskFn) (H := H) (Pc := Pc) args pm ports fl (pre ++ .hs t0 fr0 u0 d0 :: restH) evsO
+      (dgPkt fl false u0.payload pre.length) = blockR args pm fl fr0 (onesOf evsO) := by
+  obtain ⟨c1, c2, c3, c4, _⟩ := conn_of_capture (capture_of_rfc h)
+  have hev : QEv.hs t0 fr0 u0 d0 ∈ (pre ++ .hs t0 fr0 u0 d0 :: restH) ++ evsO := by simp
+  obtain ⟨hdg, _, _, _⟩ := h.described _ hev
+  rw [h.fromClient] at hdg
+  have hcap : (((pre ++ .hs t0 fr0 u0 d0 :: restH) ++ evsO).map QEv.cap)[pre.length]? = some (QEv.hs t0 fr0 u0 d0).cap := by
+    simp [List.getElem?_append_left, List.getElem?_append_right]
+  have hinfo := capInfo_at _ pre.length _ hcap
+  simp only [QEv.cap] at hinfo
+  rw [infoOf_dg fl false fr0 u0 hdg] at hinfo
+  have hc' : ¬ (fl.clientPort : Int) ∈ ports := by simpa using h.clientPort
+  generalize hc : (quicMachine maskFn H Pc (capInfo (((pre ++ .hs t0 fr0 u0 d0 :: restH) ++ evsO).map QEv.cap))).new
+    (optsOf args ports pm) (dgPkt fl false u0.payload pre.length) = c at c1 c2 c3 c4
+  have m1 : c.serverMac = fr0.dstMac := by
+    rw [← hc]; simp only [quicMachine, dgPkt, clientEp, optsOf, h.clientPort, hinfo, Bool.false_eq_true, if_false]
+  have m2 : c.clientMac = fr0.srcMac := by
+    rw [← hc]; simp only [quicMachine, dgPkt, clientEp, optsOf, h.clientPort, hinfo, Bool.false_eq_true, if_false]
+  unfold blockOf blockR expectedOut
+  rw [hc, oneItems_dgs]
+  apply List.map_congr_left
+  intro d _
+  simp only [addressed, c1, c2, c3, c4, m1, m2]
+  rfl
+
+end CaptureRfc
 
 end TLX.Props.C02Rfc
